@@ -427,6 +427,27 @@ def check(run):
         run.check(q.any_precedes(r1, mine, c), 'R4', 'counted-before-dispatch', '%s: %s' % (C + '::on_request1', (q.callee_name(c) or '').split('::')[-1]), r1.loc(c),
                   'a request is dispatched on a path that did not count it', 'an increment dominates the dispatch')
     run.notes.append('sinks analysed: %d' % nsink)
+    run.clause('fixed-length protocol fields are read in full before they are parsed, for any segmentation: every read whose completion is a negotiation step (on_handshake*, on_request*) is the composed asio::async_read of an exact byte count, never a single async_read_some')
+    STEPS = ('on_handshake', 'on_request')
+    nrd = 0
+    for fn_ in fx.repo_functions():
+        if q.top_function(fx, fn_).cls != C:
+            continue
+        for c in fn_.calls():
+            nm = (q.callee_name(c) or '').split('<')[0]
+            if not (nm.endswith('async_read') or nm.endswith('async_read_some')):
+                continue
+            tgs = [(fx.by_usr(u) or [None])[0] for u in q.completion_targets(fn_, c)]
+            tgs = [t_.norm.split('::')[-1] for t_ in tgs if t_ is not None]
+            if not any(t_.startswith(STEPS) for t_ in tgs):
+                continue
+            nrd += 1
+            run.touch(fn_)
+            run.check(nm.endswith('::async_read') or nm == 'boost::asio::async_read', 'R4', 'negotiation-reads-are-exact', '%s: %s -> %s' % (q.top_function(fx, fn_).norm.split('::')[-1], nm.split('::')[-1], tgs), fn_.loc(c),
+                      'a negotiation step (%s) is the completion of %s: a single read_some returns as soon as SOME bytes have arrived, so a request cut inside the field is parsed from a partial buffer (wrong reply code, wrong port) - the step assumes the exact count it asked for' % (tgs, nm.split('::')[-1]),
+                      'composed read of the exact count')
+    if nrd < 5:
+        run.broke('fewer than 5 reads completing in negotiation steps found (%d)' % nrd)
     run.clause('a request that names its address by host name is carried out like one that names it by IP address: the name path dispatches on the command to the same handlers as the address path (sibling agreement)')
     r1_ = fx.fn1(C + '::on_request1')
     rdl_ = fx.fn1(C + '::on_request_domain_lookup')
@@ -471,6 +492,53 @@ def check(run):
     run.check(not stuck, 'R10', 'udp-relay-rearmed', oru.norm, oru.loc(),
               'with no receive error (ec false) a path through on_read_udp returns without re-arming async_receive_from: after a datagram handled on that path (e.g. one addressed to a host name that is already cached) the relay never receives again - later datagrams in both directions are silently lost',
               'every path with ec false passes a re-arm (%d sites)' % len(rearm))
+    run.clause('each datagram is forwarded to ONE target: the loop over the resolved addresses of a host name leaves after the first successful send_to (break/return under !err)')
+    nloop = 0
+    for fn_ in [f_ for f_ in fx.repo_functions(raw=True) if f_.file.endswith('socks_server.cpp') and f_.cfg is not None]:
+        for l_ in [n_ for n_ in fn_.all_nodes() if n_['k'] == 'rangefor']:
+            sends = [c for c in walk(l_) if c['k'] == 'call' and (q.callee_name(c) or '').endswith('udp::socket::send_to')]
+            if not sends:
+                continue
+            nloop += 1
+            run.touch(fn_)
+            leaves = [n_ for n_ in walk(l_) if n_['k'] in ('break', 'return')]
+            cfg_ = fn_.cfg
+            stop_ = {cfg_.node_block(n_) for n_ in leaves} - {None}
+            again = False
+            for s_ in sends:
+                b0 = cfg_.node_block(s_)
+                leaf_ = lambda a_: {'err': False}.get(q.render(fn_, q.strip_casts(a_)))
+                blk0 = cfg_.blocks[b0]
+                first_ = [x for x in blk0['succ'] if x is not None]
+                if blk0.get('tc') is not None and len(blk0['succ']) == 2 and None not in blk0['succ']:
+                    atom0, neg0 = cfg_.branch_atom(b0)
+                    v0 = q.eval3(atom0, leaf_) if is_node(atom0) else None
+                    if v0 is not None:
+                        first_ = [blk0['succ'][0] if (v0 != neg0) else blk0['succ'][1]]
+                seen_, st_ = set(), first_
+                while st_:
+                    b = st_.pop()
+                    if b in seen_ or b in stop_ or b == cfg_.exit:
+                        continue
+                    seen_.add(b)
+                    if b == b0:
+                        again = True
+                        break
+                    blk = cfg_.blocks[b]
+                    succ = blk['succ']
+                    if blk.get('tc') is not None and len(succ) == 2 and None not in succ:
+                        atom, neg = cfg_.branch_atom(b)
+                        v = q.eval3(atom, lambda a_: {'err': False}.get(q.render(fn_, q.strip_casts(a_)))) if is_node(atom) else None
+                        if v is not None:
+                            st_.append(succ[0] if (v != neg) else succ[1])
+                            continue
+                    st_.extend(x for x in succ if x is not None)
+                # the block of the send itself may hold the branch on err
+            run.check(not again, 'R4', 'one-target-per-datagram', '%s: loop over %s' % (q.top_function(fx, fn_).norm[:60], q.render(fn_, l_.get('range'))[:20]), fn_.loc(l_),
+                      'after a SUCCESSFUL send_to (err false) the loop over the resolved addresses goes on to the next address: a datagram for a name with several address records is sent to all of them, and the extra replies reach the client with the wrong header',
+                      'the loop is left after the first successful send')
+    if nloop < 1:
+        run.broke('socks_server.cpp: no loop over resolved addresses containing a send_to found')
     run.clause('a datagram waiting for its name lookup owns its bytes: no closure handed to an asynchronous operation captures a buffer VIEW, pointer or reference into the connection\'s receive buffers (they are re-armed for the next datagram before the closure runs)')
     nlam = 0
     for fn in [f_ for f_ in fx.repo_functions() if f_.file.endswith('socks_server.cpp')]:
